@@ -915,13 +915,15 @@ def replay_c11(d, case):
                 if not bit_equal(g[..., k], arr[..., F.index(name)]):
                     return True, 'level %d box %s: kept field %s is not bit-identical to the input' % (l, box, name)
             a_, rho = arr[..., F.index('a')], arr[..., F.index('density')]
-            if gas is not None:
+            if gas is not None and not label.startswith('user-boxsol'):
                 sa = ct.SolutionArray(gas, arr.shape[:-1])
                 sa.TPY = arr[..., iT].copy(), kw['pressure'] * ct.one_atm * np.ones(arr.shape[:-1]), arr[..., iY:iY + 2].copy()
             if label.startswith('user-single'):
                 new = [a_ + 2 * rho]
             elif label.startswith('user-multi'):
                 new = [2 * a_ + rho, a_ * rho]
+            elif label.startswith('user-boxsol'):
+                new = [arr[..., iT] * rho]
             elif label.startswith('user-sol'):
                 new = [sa.heat_release_rate * rho]
             elif label.startswith('HRR'):
